@@ -131,7 +131,7 @@ def obligations(tier, seed):
     for (sn, i) in prim:
         p = {"schema": sn, "doc": i, "prim": True}
         if tier == "quick":
-            p.update(slices=[0, 2, 5, 7, 12, 13], ras=[0, 1, 2, 9, 10])
+            p.update(slices=[0, 2, 5, 7, 12, 13, common.templates.nslices(sn)], ras=[0, 1, 2, 9, 10])    # last = the empty slice
         size = common.templates.doc(sn, i).content.size
         tag = "%s#%d" % (sn, i)
         for lo in range(0, size + 1, 4):
